@@ -340,7 +340,7 @@ def run_mrq(sc):
     w = _Watches(rec)
     for k, v in mods.items():
         w.add(k, v)
-    td = sc.get("target_delay", 2)
+    td = sc.get("target_delay", 3)  # coordinator: 3, so that an epoch counter that is off by 2 shows
     kwargs = dict(seed=seed, total_timesteps=sc["budget"], gamma=0.5, target_delay=td, batch_size=sc["batch"], exploration_noise=0.5,
                   target_policy_noise=0.25, noise_clip=0.5, learning_starts=warm, encoder_horizon=eh, q_horizon=qh, replay_buffer=buf,
                   policy_with_encoder_target=ptgt, q_target=qtgt, logger=logger, global_step=sc.get("start", 0), progress_bar=False)
